@@ -1,7 +1,7 @@
 ---------------------------- MODULE MC_Reporting ----------------------------
 (***************************************************************************)
 (* Bounded exploration of the reporting state machine (Reporting.tla) over *)
-(* three tiny abstract frames:                                             *)
+(* tiny abstract frames (quick: 1..3, thorough: 1..4):                     *)
 (*   frame 1  3 cells in a chain: internal interface with an interior      *)
 (*            point (2 mesh edges, unequal ground truth), border           *)
 (*            interface, internal two-point interface, border interface    *)
@@ -11,10 +11,15 @@
 (*            (one with, one without interior point); gt=False             *)
 (*   frame 3  three cells around one junction, only two-point interfaces,  *)
 (*            no border; gt=True                                           *)
-(* Every public call with every flag combination and two value patterns    *)
-(* (three for Solve: one with an interface excluded by the angle limit) is *)
-(* an action; the implementation-shaped step IStep is explored and, for    *)
-(* every transition (pre, call, result, post):                             *)
+(*   frame 4  4 cells, six interfaces, a three-edge interface; gt=True     *)
+(* Every public call with every flag combination and the value patterns    *)
+(* Pats (Solve: one pattern with an interface excluded by the angle limit) *)
+(* is an action; the implementation-shaped step IStep is explored. VIEW    *)
+(* hides the history and the last call: the distinct states are the        *)
+(* reachable abstract frames (the graph is finite and explored completely, *)
+(* MaxDepth is only a safety bound), and every invariant quantifies over   *)
+(* ALL calls leaving the state, so every transition (pre, call, result,    *)
+(* post) of the reachable graph is judged:                                 *)
 (*   Conform        the declarative Judge finds only instances explained   *)
 (*                  by a known-finding matcher (I => D except KF matchers) *)
 (*   QueriesPure    queries never change the state (also as the action     *)
@@ -24,23 +29,28 @@
 (*   SolveTable     after Solve(x) the tension table lists exactly x on    *)
 (*                  the internal interfaces in order (0 where x = -1) and  *)
 (*                  zero on the border ones unless the legacy              *)
-(*                  assign_tensions wrote there                            *)
+(*                  assign_tensions wrote there; log_force lists x         *)
 (*   AssignGTTable  after AssignGT(g) the ground-truth table lists g       *)
 (*   PressureTable  after AssignPressures(p, m) the table shows p[m[c]]    *)
 (*   RoundTrip      the declarative export is the table, column by column  *)
 (*   TablesAgree    GT / EdgeProps / CellProps / Pressures / without-border*)
 (*                  tables are projections of one another                  *)
 (*   Symmetric      ByCells does not depend on the order of its arguments  *)
-(* VIEW hides the history: the distinct states are the transitions (pre,   *)
-(* call, post) of the reachable graph; `hist` is one call sequence that    *)
-(* reaches the transition. A hash-selected sample of them (all of those    *)
-(* that end in a known-finding instance: EMITKF) is printed as `EJ {json}` *)
-(* and replayed on real forsys objects (harness/props/reporting.py).       *)
+(* MC_Reporting_guard.cfg: ConformRaw (no matcher) is EXPECTED to be       *)
+(* violated - the matchers are reachable.                                  *)
+(* `hist` is the first call sequence found for the state; for a hash-      *)
+(* selected sample of the transitions (denser among those that end in a    *)
+(* known-finding instance) `hist` followed by the call is printed as       *)
+(* `EJ {json}` and replayed on real forsys objects                         *)
+(* (harness/props/reporting.py).                                           *)
 (***************************************************************************)
 EXTENDS Reporting, Json
 
-CONSTANTS MaxDepth,      \* number of calls (CONSTRAINT on the BFS level)
-          EMITMOD        \* 1 of EMITMOD transitions is printed
+CONSTANTS NFRAMES,       \* the abstract frames 1..NFRAMES are explored
+          Pats,          \* value patterns of the assignment calls ("a", "b", "c")
+          MaxDepth,      \* number of calls (CONSTRAINT on the BFS level)
+          EMITMOD,       \* 1 of EMITMOD transitions is printed
+          EMITKF         \* 1 of EMITKF transitions that end in a known-finding instance
 
 \* ---- the abstract frames ------------------------------------------------------------------
 V(k) == Num(12 * k)
@@ -56,16 +66,24 @@ Raw3 == [nb |-> 3, nc |-> 3, ne |-> 3, ext |-> <<FALSE, FALSE, FALSE>>, inl |-> 
          edges |-> <<<<1>>, <<2>>, <<3>>>>, npt |-> <<2, 2, 2>>,
          touch |-> <<<<1, 2>>, <<2, 3>>, <<3, 1>>>>, gtflag |-> TRUE,
          geom |-> FALSE, ifx |-> <<>>, ify |-> <<>>, cx |-> <<>>, cy |-> <<>>]
-Raws == <<Raw1, Raw2, Raw3>>
-EGT0 == <<<<V(1), V(3), V(0), V(2), V(1), V(1)>>, <<V(1), V(1), V(2), V(3), V(0)>>, <<V(1), V(2), V(3)>>>>
-CGT0 == <<<<V(1), V(2), V(3)>>, <<NoneV, NoneV>>, <<V(2), NoneV, V(1)>>>>
+\* frame 4 (thorough tier): 4 cells in a ring-like patch, six interfaces, a three-edge interface
+Raw4 == [nb |-> 6, nc |-> 4, ne |-> 9, ext |-> <<FALSE, TRUE, FALSE, FALSE, TRUE, FALSE>>,
+         inl |-> <<TRUE, FALSE, TRUE, TRUE, FALSE, TRUE>>,
+         edges |-> <<<<1, 2, 3>>, <<4>>, <<5>>, <<6, 7>>, <<8>>, <<9>>>>, npt |-> <<4, 2, 2, 3, 2, 2>>,
+         touch |-> <<<<1, 2>>, <<1>>, <<2, 3>>, <<3, 4>>, <<4>>, <<4, 1>>>>, gtflag |-> TRUE,
+         geom |-> FALSE, ifx |-> <<>>, ify |-> <<>>, cx |-> <<>>, cy |-> <<>>]
+Raws == <<Raw1, Raw2, Raw3, Raw4>>
+EGT0 == <<<<V(1), V(3), V(0), V(2), V(1), V(1)>>, <<V(1), V(1), V(2), V(3), V(0)>>, <<V(1), V(2), V(3)>>,
+          <<V(1), V(2), V(6), V(0), V(2), V(1), V(5), V(1), V(4)>>>>
+CGT0 == <<<<V(1), V(2), V(3)>>, <<NoneV, NoneV>>, <<V(2), NoneV, V(1)>>, <<V(4), V(3), V(2), V(1)>>>>
 
-VARIABLES fi, F, pre, cur, last, ret, legacy, hist
-vars == <<fi, F, pre, cur, last, ret, legacy, hist>>
+VARIABLES fi, F, cur, last, legacy, hist
+vars == <<fi, F, cur, last, legacy, hist>>
 
 \* ---- the calls -----------------------------------------------------------------------------------
 Pat(p, i) == CASE p = "a" -> V(i)
                [] p = "b" -> V(7 - i)
+               [] p = "c" -> V(2 * i + 1)
                [] p = "x" -> IF i = 2 THEN MinusOne ELSE V(i + 3)     \* the second internal interface is excluded
 PatVec(p, n) == [i \in 1..n |-> Pat(p, i)] \o <<>>
 MapOf(m, n) == IF m = "id" THEN [c \in 1..n |-> c] \o <<>> ELSE [c \in 1..n |-> n + 1 - c] \o <<>>
@@ -74,10 +92,10 @@ Call(op, wb, isgt, g, map, a, b, pat, mp) ==
 C0(op) == Call(op, FALSE, FALSE, <<>>, <<>>, 0, 0, "", "")
 NoCall == C0("none")
 Calls(f) ==
-  {Call("AssignGT", wb, FALSE, PatVec(p, Len(Listed(f, wb))), <<>>, 0, 0, p, "") : wb \in BOOLEAN, p \in {"a", "b"}}
+  {Call("AssignGT", wb, FALSE, PatVec(p, Len(Listed(f, wb))), <<>>, 0, 0, p, "") : wb \in BOOLEAN, p \in Pats}
   \cup {Call("AssignGTSmall", wb, FALSE, <<>>, <<>>, 0, 0, "", "") : wb \in BOOLEAN}
-  \cup {Call("AssignPressures", FALSE, FALSE, PatVec(p, f.nc), MapOf(m, f.nc), 0, 0, p, m) : p \in {"a", "b"}, m \in {"id", "rev"}}
-  \cup {Call("AssignSmall", FALSE, FALSE, PatVec(p, f.nb), <<>>, 0, 0, p, "") : p \in {"a", "b"}}
+  \cup {Call("AssignPressures", FALSE, FALSE, PatVec(p, f.nc), MapOf(m, f.nc), 0, 0, p, m) : p \in Pats, m \in {"id", "rev"}}
+  \cup {Call("AssignSmall", FALSE, FALSE, PatVec(p, f.nb), <<>>, 0, 0, p, "") : p \in Pats}
   \cup {C0("ToBig")}
   \cup {Call("Solve", FALSE, FALSE, PatVec(p, Len(f.inlist)), <<>>, 0, 0, p, "") : p \in {"a", "x"}}
   \cup {Call("SolveP", FALSE, FALSE, PatVec("b", f.nc), MapOf("id", f.nc), 0, 0, "b", "id")}
@@ -88,54 +106,59 @@ Calls(f) ==
   \cup {Call("ByCells", FALSE, FALSE, <<>>, <<>>, a, b, "", "") : a \in 1..f.nc, b \in 1..f.nc}
   \cup {Call(op, FALSE, FALSE, <<>>, <<>>, j, 0, "", "") : op \in {"EdgesId", "EdgeForce"}, j \in 1..f.nb}
 
-Init == /\ fi \in 1..Len(Raws)
+Init == /\ fi \in 1..NFRAMES
         /\ F = MkFrame(Raws[fi])
         /\ cur = InitState(MkFrame(Raws[fi]), EGT0[fi], CGT0[fi])
-        /\ pre = cur /\ last = NoCall /\ ret = Res0 /\ legacy = FALSE /\ hist = <<>>
+        /\ last = NoCall /\ legacy = FALSE /\ hist = <<>>
 Next == \E c \in Calls(F) :
           \E x \in {IStep(F, cur, c)} :
-            /\ pre' = cur /\ cur' = x.post /\ ret' = x.res /\ last' = c
+            /\ cur' = x.post /\ last' = c
             /\ legacy' = (legacy \/ c.op = "AssignSmall")
             /\ hist' = Append(hist, c)
             /\ UNCHANGED <<fi, F>>
 Spec == Init /\ [][Next]_vars
 
-View == <<fi, pre, cur, last, legacy>>
+\* the history and the last call are hidden: the distinct states are the reachable abstract frames; every invariant
+\* below quantifies over ALL calls leaving the state, so every transition of the reachable graph is judged
+View == <<fi, cur, legacy>>
 DepthOK == TLCGet("level") <= MaxDepth + 1
 
 \* ---- I => D except the recorded findings ----------------------------------------------------------
 \* (symmetry of ByCells is judged against the lookup with the arguments swapped on the same state)
-Memo == IF last.op = "ByCells" THEN LET r == IByCells(F, last.b, last.a) IN
-                                     {<<last.b, last.a, IF r.raised # "" THEN -1 ELSE r.j>>}
-        ELSE {}
-Inst == IF last = NoCall THEN JudgeFrame(F, cur) ELSE Judge(F, pre, last, ret, cur, Memo)
-Conform == Fails(Inst) = {}
+Memo(c) == IF c.op = "ByCells" THEN LET r == IByCells(F, c.b, c.a) IN {<<c.b, c.a, IF r.raised # "" THEN -1 ELSE r.j>>}
+           ELSE {}
+Inst(c, x) == Judge(F, cur, c, x.res, x.post, Memo(c))
+Conform == /\ hist = <<>> => JudgeFrame(F, cur) = {}
+           /\ \A c \in Calls(F) : Fails(Inst(c, IStep(F, cur, c))) = {}
 \* the raw property (EXPECTED to be violated: vacuity guard, the matchers are reachable)
-ConformRaw == Inst = {}
+ConformRaw == \A c \in Calls(F) : Inst(c, IStep(F, cur, c)) = {}
 
-QueriesPure == last.op \in Queries => cur = pre
+QueriesPure == \A c \in Calls(F) : c.op \in Queries => IStep(F, cur, c).post = cur
 PureQueries == [][last'.op \in Queries => cur' = cur]_vars
 GTMean == F.gtflag => GTIsMean(F, cur)
 
-Done(op) == last.op = op /\ ret.raised = ""
-\* after Solve(x): exactly x on the internal interfaces, in order; zero on the border ones
+\* after Solve(x): exactly x on the internal interfaces, in order (0 where x = -1); zero on the border ones unless the
+\* legacy assign_tensions wrote there; log_force lists x
 SolveTable ==
-  Done("Solve") =>
-    LET t  == DTensions(F, cur, FALSE)
-        tb == DTensions(F, cur, TRUE)
-    IN  /\ Len(t) = Len(last.g)
-        /\ \A i \in 1..Len(t) : t[i][3] = Written(last.g[i])
+  \A c \in Calls(F) : c.op = "Solve" =>
+    LET nx == IStep(F, cur, c).post
+        t  == DTensions(F, nx, FALSE)
+        tb == DTensions(F, nx, TRUE)
+    IN  /\ Len(t) = Len(c.g)
+        /\ \A i \in 1..Len(t) : t[i][3] = Written(c.g[i])
         /\ \A i \in 1..Len(tb) : F.ext[tb[i][1]] => (legacy \/ tb[i][3] = Zero)
-        /\ cur.hasF /\ DLogForce(cur) = [i \in 1..Len(last.g) |-> <<i - 1, last.g[i], 0>>]
+        /\ nx.hasF /\ DLogForce(nx) = [i \in 1..Len(c.g) |-> <<i - 1, c.g[i], 0>>]
+\* after AssignGT(g) the ground-truth table lists g in order, nothing else moved (the code serves use_all = FALSE only)
 AssignGTTable ==
-  Done("AssignGT") =>
-    LET t == DGT(F, cur, last.wb) IN
-    /\ Len(t) = Len(last.g) /\ \A i \in 1..Len(t) : t[i][2] = last.g[i]
-    \* nothing else moved
-    /\ \A j \in 1..F.nb : ListPos(F, last.wb)[j] = 0 => cur.igt[j] = pre.igt[j]
+  \A c \in Calls(F) : (c.op = "AssignGT" /\ ~c.wb) =>
+    LET nx == IStep(F, cur, c).post
+        t == DGT(F, nx, c.wb)
+    IN  /\ Len(t) = Len(c.g) /\ \A i \in 1..Len(t) : t[i][2] = c.g[i]
+        /\ \A j \in 1..F.nb : ListPos(F, c.wb)[j] = 0 => nx.igt[j] = cur.igt[j]
 PressureTable ==
-  (Done("AssignPressures") \/ Done("SolveP")) =>
-    LET t == DPressures(F, cur) IN \A c \in 1..F.nc : t[c][1] = c /\ t[c][3] = last.g[last.map[c]] /\ t[c][2] = pre.cgt[c]
+  \A c \in Calls(F) : c.op \in {"AssignPressures", "SolveP"} =>
+    LET t == DPressures(F, IStep(F, cur, c).post) IN
+    \A k \in 1..F.nc : t[k][1] = k /\ t[k][3] = c.g[c.map[k]] /\ t[k][2] = cur.cgt[k]
 RoundTrip ==
   \A wb \in BOOLEAN :
     /\ DExport(F, cur, TRUE, wb) = [i \in 1..Len(DGT(F, cur, wb)) |-> <<DGT(F, cur, wb)[i][1], DGT(F, cur, wb)[i][2]>>]
@@ -159,11 +182,15 @@ OpCode(op) == CASE op = "AssignGT" -> 1 [] op = "AssignGTSmall" -> 2 [] op = "As
                 [] op = "CellProps" -> 16 [] op = "EdgeProps" -> 17 [] op = "EdgesId" -> 18 [] op = "LogForce" -> 19
                 [] op = "EdgeForce" -> 20 [] OTHER -> 0
 CallCode(c) == OpCode(c.op) * 64 + (IF c.wb THEN 1 ELSE 0) + (IF c.isgt THEN 2 ELSE 0) + 4 * c.a + 16 * c.b
-               + (IF c.pat \in {"b", "x"} THEN 32 ELSE 0) + (IF c.mp = "rev" THEN 3 ELSE 0)
+               + (IF c.pat \in {"b", "x"} THEN 32 ELSE IF c.pat = "c" THEN 48 ELSE 0) + (IF c.mp = "rev" THEN 3 ELSE 0)
 RECURSIVE HistHash(_, _)
-HistHash(h, k) == IF k > Len(h) THEN 0 ELSE ((CallCode(h[k]) * (31 + 2 * k)) % 100003 + 7 * HistHash(h, k + 1)) % 100003
+HistHash(h, k) == IF k > Len(h) THEN 0 ELSE (((CallCode(h[k]) * (31 + 2 * k)) % 100003) + 7 * HistHash(h, k + 1)) % 100003
 Slim(c) == [op |-> c.op, wb |-> c.wb, isgt |-> c.isgt, a |-> c.a, b |-> c.b, pat |-> c.pat, mp |-> c.mp]
-Emit == (Len(hist) > 0 /\ ((HistHash(hist, 1) + fi) % EMITMOD = 0 \/ Known(Inst) # {})) =>
-          PrintT("EJ " \o ToJson([frame |-> fi, n |-> Len(hist), kf |-> Known(Inst),
-                                  hist |-> [k \in 1..Len(hist) |-> Slim(hist[k])]]))
+\* one call sequence per transition of the graph: the first history found for the state, followed by the call
+Sampled(h, kf) == LET x == HistHash(h, 1) + fi IN x % EMITMOD = 0 \/ (kf # {} /\ x % EMITKF = 0)
+Emit == \A c \in Calls(F) :
+          LET h  == Append(hist, c)
+              kf == Known(Inst(c, IStep(F, cur, c)))
+          IN  Sampled(h, kf) =>
+                PrintT("EJ " \o ToJson([frame |-> fi, n |-> Len(h), kf |-> kf, hist |-> [k \in 1..Len(h) |-> Slim(h[k])]]))
 =============================================================================
